@@ -13,7 +13,9 @@ Correspondence (real code vs compiled model driver, every observable the propert
   foreign   synthesised headers: BYTEORDER M with big-endian data for every dtype, ULXMAP/XDIM variants, NODATA vs
             NODATA_VALUE, CRLF, key case, extra keys and blanks, missing NROWS, header without data;
   malformed missing NCOLS, bad byte order / pixel type / NBITS, one-token lines, blank lines, wrong item count,
-            non-numeric tokens, no-data outside the type: error class compared;
+            non-numeric tokens, no-data outside the type: error class compared and differences REPORTED in the evidence
+            (`malformed_header_differences`) - the treatment of text that is not a valid header is not constrained by
+            the property, so it cannot break the correspondence;
   setter    Grid.data setter (own dtype, with and without finite integer mindata/maxdata) against `setData`;
   dict      to_dict (dtype string, no-data text canonicalised) and from_dict of the REAL dictionary against
             `toDict/fromDict`;  np.dtype(str) and the pixel-type regex on generated strings against the tables;
@@ -117,6 +119,26 @@ def pval_tok(v):
     return ",".join(["2"] + [str(ord(c)) for c in str(v)])
 
 
+def pval_value(v):
+    """value of an attribute, whatever its representation: exact number, or text"""
+    if isinstance(v, (int, np.integer)) and not isinstance(v, (bool, np.bool_)):
+        return str(Fraction(int(v)))
+    if isinstance(v, (float, np.floating)):
+        return str(Fraction(float(v))) if np.isfinite(v) else repr(float(v))
+    return "t:" + str(v)
+
+
+def model_pval_value(tok):
+    """same for a value in the driver's encoding (tag,payload)"""
+    f = tok.split(",")
+    if f[0] == "0":
+        return str(Fraction(-int(f[2]) if f[1] == "1" else int(f[2])))
+    if f[0] == "1":
+        x = struct.unpack(">d", struct.pack(">Q", int(f[1])))[0]
+        return str(Fraction(x)) if np.isfinite(x) else repr(x)
+    return "t:" + "".join(chr(int(c)) for c in f[1:] if c != "")
+
+
 def parent_of(g):
     return {k: v for k, v in vars(g).items() if k.startswith("parentgrid_")}
 
@@ -158,7 +180,7 @@ def obs_real(g):
             "xll": rawhex(g.xllcorner), "yll": rawhex(g.yllcorner), "csz": rawhex(g.cellsize),
             "dtype": t.kind + str(t.itemsize), "nodata": nod,
             "data": [[int(v) for v in r] for r in uview(g.data)] if g.data.dtype == t else ("wrongdtype", str(g.data.dtype)),
-            "parent": sorted((k, pval_tok(v)) for k, v in parent_of(g).items())}
+            "parent": sorted((k, pval_value(v)) for k, v in parent_of(g).items())}
 
 
 def obs_model(toks):
@@ -168,7 +190,7 @@ def obs_model(toks):
     if is_nan_word(nod, t):
         nod = "nan"
     return {"name": dec(name), "comment": dec(comment), "nrows": int(nrows), "ncols": int(ncols), "xll": xll, "yll": yll,
-            "csz": csz, "dtype": kind + nbytes, "nodata": nod, "data": parse_mat(data), "parent": parse_parent(pk, pv)}
+            "csz": csz, "dtype": kind + nbytes, "nodata": nod, "data": parse_mat(data), "parent": sorted((k, model_pval_value(v)) for k, v in parse_parent(pk, pv))}
 
 
 def diff_obs(a, b, skip=()):
@@ -314,30 +336,62 @@ def body(ctx):
     shutil.rmtree(work, ignore_errors=True)
     work.mkdir(parents=True)
 
+    def escaped(e):
+        ctx.disagree(f"C13: unexpected {type(e).__name__} while exercising or observing the real code",
+                     {"error": f"{type(e).__name__}: {e}"[:300], "trace": traceback.format_exc()[-900:]})
+
     def ask(req, kind, impl, case):
         reqs.append(req)
         checks.append((kind, impl, case))
 
-    def canon_header(text, g):
-        t = np.dtype(g.dtype)
-        out = []
-        for line in text.split("\n")[:-1]:
-            m = re.match(r"^(\S*)( +)(.*)$", line)
-            if not m:
-                out.append(line)
+    INERT = {"LAYOUT", "NBANDS", "BANDROWBYTES", "TOTALROWBYTES", "SKIPBYTES", "BANDGAPBYTES"}
+
+    def num_value(val):
+        """exact value of a numeric token: the model prints floats as x<bits>, the code as decimal text"""
+        if val.startswith("x"):
+            return Fraction(struct.unpack(">d", bytes.fromhex(val[1:]))[0])
+        try:
+            return Fraction(int(val))
+        except ValueError:
+            return Fraction(float(val))
+
+    def canon_header(text, t):
+        """semantic content of a header text, key -> canonical value: field order, padding, inert ESRI fields, NODATA vs
+        NODATA_VALUE, the spelling of numbers and the case of the type fields are incidental"""
+        t = np.dtype(t)
+        out = {}
+        for line in re.split(r"\r\n|\n|\r", text):
+            toks = line.split(None, 1)
+            if not toks:
                 continue
-            key, pad, val = m.groups()
+            key = toks[0].upper()
+            val = toks[1].strip() if len(toks) > 1 else ""
+            if key in INERT:
+                continue
+            if key == "NODATA":
+                key = "NODATA_VALUE"
             try:
-                if key in FLOAT_KEYS or (key.startswith("PARENTGRID_") and
-                                         isinstance(getattr(g, key.lower(), None), (float, np.floating))):
-                    val = "x" + rawhex(float(val))
-                elif key == "NODATA_VALUE" and t.kind == "f":
-                    w = word_of(t.type(val), t)
-                    val = "xnan" if is_nan_word(w, t) else "x" + "%0*x" % (2 * t.itemsize, w)
-            except ValueError:
-                pass
-            out.append(key + pad + val)
-        return sorted(out)
+                if key in FLOAT_KEYS:
+                    val = "f" + (val[1:] if val.startswith("x") else rawhex(float(val)))
+                elif key.startswith("PARENTGRID_") or key in ("NROWS", "NCOLS", "NBITS"):
+                    val = "n" + str(num_value(val))
+                elif key == "NODATA_VALUE":
+                    if val.startswith("x"):
+                        w = None if val == "xnan" else int(val[1:], 16)
+                    elif t.kind == "f":
+                        w = word_of(t.type(float(val)), t)
+                    else:
+                        try:
+                            w = word_of(t.type(int(val)), t)
+                        except ValueError:
+                            w = word_of(t.type(float(val)), t)
+                    val = "nan" if w is None or is_nan_word(w, t) else "w%d" % w
+                elif key in ("PIXELTYPE", "BYTEORDER"):
+                    val = val.upper()
+            except (ValueError, OverflowError):
+                val = "?" + val
+            out[key] = val
+        return out
 
     def read_back(path, how):
         """load through one of the three entry points; returns (grid, default name)"""
@@ -401,7 +455,7 @@ def body(ctx):
             return
         htext = path.with_suffix(".hdr").read_text()
         dbytes = path.read_bytes()
-        ask("save " + grid_toks(g), "save", (canon_header(htext, g), dbytes.hex()), {**case, "op": "save", "header": htext})
+        ask("save " + grid_toks(g), "save", (canon_header(htext, t), dbytes.hex()), {**case, "op": "save", "header": htext})
         # --- load
         how = ["from_header", "from_stream", "from_zip", "from_stringio"][it % 4]
         try:
@@ -487,57 +541,66 @@ def body(ctx):
 
     # corpus: minimised past failures first (the four defects repaired by the fix: commits)
     for cf in sorted((C.ROOT / "corpus" / PID).glob("*.json")):
-        cj = json.loads(cf.read_text())
-        if cj.get("kind") == "saveload":
-            t = np.dtype(cj["dtype"])
-            nr, nc = cj["shape"]
-            nod = np.array([cj["nodata_word"]], dtype="u%d" % t.itemsize).view(t)[0]
-            g = Grid(cj.get("name", "corpus"), nc, nr, cellsize=cj.get("csz", 1.0), xllcorner=cj.get("xll", 0.0),
-                     yllcorner=cj.get("yll", 0.0), dtype=t.type, nodata=nod, comment=cj.get("comment", ""))
-            vals = np.array(cj["words"], dtype="u%d" % t.itemsize).view(t).reshape(nr, nc)
-            saveload_case(g, vals, cj["nodata_word"], cj["dtype"], (nr, nc), 0, False)
-        elif cj.get("kind") == "catchment":
-            catchment_case(np.array(cj["flowdir"], dtype=np.int64), cj["outlet"], cj["inlets"], "corpus", 99)
+        try:
+            cj = json.loads(cf.read_text())
+            if cj.get("kind") == "saveload":
+                t = np.dtype(cj["dtype"])
+                nr, nc = cj["shape"]
+                nod = np.array([cj["nodata_word"]], dtype="u%d" % t.itemsize).view(t)[0]
+                g = Grid(cj.get("name", "corpus"), nc, nr, cellsize=cj.get("csz", 1.0), xllcorner=cj.get("xll", 0.0),
+                         yllcorner=cj.get("yll", 0.0), dtype=t.type, nodata=nod, comment=cj.get("comment", ""))
+                vals = np.array(cj["words"], dtype="u%d" % t.itemsize).view(t).reshape(nr, nc)
+                saveload_case(g, vals, cj["nodata_word"], cj["dtype"], (nr, nc), 0, False)
+            elif cj.get("kind") == "catchment":
+                catchment_case(np.array(cj["flowdir"], dtype=np.int64), cj["outlet"], cj["inlets"], "corpus", 99)
+        except Exception as e:  # noqa  (nothing unexpected may escape: it becomes a correspondence disagreement)
+            escaped(e)
 
     ncase = ctx.scale(80, 600)
     it = 0
     for rep in range(ncase):
-        for tname in DTYPES:
-            it += 1
-            shape = gen_shape(ctx, rng)
-            g, vals, nodw = make_grid(Grid, rng, tname, shape)
-            saveload_case(g, vals, nodw, tname, shape, it, rng.random() < 0.15)
+        try:
+            for tname in DTYPES:
+                it += 1
+                shape = gen_shape(ctx, rng)
+                g, vals, nodw = make_grid(Grid, rng, tname, shape)
+                saveload_case(g, vals, nodw, tname, shape, it, rng.random() < 0.15)
+        except Exception as e:  # noqa  (nothing unexpected may escape: it becomes a correspondence disagreement)
+            escaped(e)
 
     # ======================================================================= (2) bounded integer grids (setter + load)
     for rep in range(ctx.scale(150, 1500)):
-        tname = rng.choice(DTYPES[:8])
-        t = np.dtype(tname)
-        info = np.iinfo(t)
-        shape = gen_shape(ctx, rng)
-        g, vals, nodw = make_grid(Grid, rng, tname, shape, name="b", comment="")
-        lo = rng.choice([None, int(info.min), rng.randint(int(info.min), int(info.max))])
-        hi = rng.choice([None, int(info.max), rng.randint(int(info.min), int(info.max))])
-        if lo is not None and hi is not None and lo > hi:
-            lo, hi = hi, lo
-        if lo is not None:
-            g.mindata = lo
-        if hi is not None:
-            g.maxdata = hi
-        gt0 = grid_toks(g)
-        g.data = vals
-        ask(f"setdata {gt0} {fmt_mat(vals)}", "grid", obs_real(g), {"op": "setdata/bounded", "dtype": tname, "lo": lo, "hi": hi})
-        expect = vals.copy()
-        if lo is not None:
-            expect = np.maximum(expect, t.type(lo))
-        if hi is not None:
-            expect = np.minimum(expect, t.type(hi))
-        # property-level statement: inside [lo, hi] nothing changes; outside, the bound itself
-        exact = np.array([[min(max(int(v), lo if lo is not None else int(v)), hi if hi is not None else max(int(v), lo if lo is not None else int(v)))
-                           for v in r] for r in vals], dtype=object)
-        if not np.array_equal(g.data.astype(object), exact):
-            ctx.finding(f"setter/bounded/{data_class(t, vals)}", "integer data are not clipped exactly to [mindata, maxdata]",
-                        {"dtype": tname, "lo": lo, "hi": hi, "vals": [int(v) for v in vals.flat[:6]], "got": [int(v) for v in g.data.flat[:6]]})
-        ctx.count(("bounded", tname, lo, hi, tuple(int(v) for v in vals.flat[:6])), lo is not None or hi is not None, "setter/bounded")
+        try:
+            tname = rng.choice(DTYPES[:8])
+            t = np.dtype(tname)
+            info = np.iinfo(t)
+            shape = gen_shape(ctx, rng)
+            g, vals, nodw = make_grid(Grid, rng, tname, shape, name="b", comment="")
+            lo = rng.choice([None, int(info.min), rng.randint(int(info.min), int(info.max))])
+            hi = rng.choice([None, int(info.max), rng.randint(int(info.min), int(info.max))])
+            if lo is not None and hi is not None and lo > hi:
+                lo, hi = hi, lo
+            if lo is not None:
+                g.mindata = lo
+            if hi is not None:
+                g.maxdata = hi
+            gt0 = grid_toks(g)
+            g.data = vals
+            ask(f"setdata {gt0} {fmt_mat(vals)}", "grid", obs_real(g), {"op": "setdata/bounded", "dtype": tname, "lo": lo, "hi": hi})
+            expect = vals.copy()
+            if lo is not None:
+                expect = np.maximum(expect, t.type(lo))
+            if hi is not None:
+                expect = np.minimum(expect, t.type(hi))
+            # property-level statement: inside [lo, hi] nothing changes; outside, the bound itself
+            exact = np.array([[min(max(int(v), lo if lo is not None else int(v)), hi if hi is not None else max(int(v), lo if lo is not None else int(v)))
+                               for v in r] for r in vals], dtype=object)
+            if not np.array_equal(g.data.astype(object), exact):
+                ctx.finding(f"setter/bounded/{data_class(t, vals)}", "integer data are not clipped exactly to [mindata, maxdata]",
+                            {"dtype": tname, "lo": lo, "hi": hi, "vals": [int(v) for v in vals.flat[:6]], "got": [int(v) for v in g.data.flat[:6]]})
+            ctx.count(("bounded", tname, lo, hi, tuple(int(v) for v in vals.flat[:6])), lo is not None or hi is not None, "setter/bounded")
+        except Exception as e:  # noqa  (nothing unexpected may escape: it becomes a correspondence disagreement)
+            escaped(e)
 
     # ======================================================================= (3) foreign and malformed headers
     def foreign_header(kind, t, nr, nc, words):
@@ -586,34 +649,37 @@ def body(ctx):
         return text, data, bo, arr, eol
 
     for rep in range(ctx.scale(600, 5000)):
-        tname = DTYPES[rep % len(DTYPES)]
-        t = np.dtype(tname)
-        nr, nc = gen_shape(ctx, rng)
-        words = gen_words(rng, t, nr * nc)
-        kind = rng.choice(["plain", "ul", "xdim_only", "plain"])
-        text, data, bo, arr, eol = foreign_header(kind, t, nr, nc, words)
-        with_data = rng.random() < 0.85
-        p = work / "foreign.hdr"
-        for f in work.glob("foreign.*"):
-            f.unlink()
-        # newline="" so that CRLF reaches the file as generated
-        with open(p, "w", newline="") as fh:
-            fh.write(text)
-        if with_data:
-            p.with_suffix(".bil").write_bytes(data)
-        how = rng.choice(["from_header", "from_stream"]) if eol == "\r\n" else rng.choice(["from_header", "from_stream", "from_zip", "from_stringio"])
-        case = {"op": "foreign", "kind": kind, "dtype": tname, "shape": [nr, nc], "header": text, "how": how, "byteorder": bo}
         try:
-            g2, defname = read_back(p, how)
-        except Exception as e:  # noqa
-            ask(load_request("foreign", text, data if with_data else None), "load_err", exc_class(e), case)
-            ctx.count(("foreign", rep), False, "foreign/error/" + exc_class(e))
-            continue
-        ask(load_request(defname, text, data if with_data else None), "load", (bo, obs_real(g2)), case)
-        if with_data and np.dtype(g2.dtype) == t:
-            check_bits(ctx, f"load/byteorder_{bo}/data" if bo == "M" else "load/foreign/data",
-                       "a raster is not decoded to the values its file holds", arr, g2.data, case)
-        ctx.count(("foreign", tname, kind, bo, nr, nc, text), True, f"foreign/{kind}/{bo}")
+            tname = DTYPES[rep % len(DTYPES)]
+            t = np.dtype(tname)
+            nr, nc = gen_shape(ctx, rng)
+            words = gen_words(rng, t, nr * nc)
+            kind = rng.choice(["plain", "ul", "xdim_only", "plain"])
+            text, data, bo, arr, eol = foreign_header(kind, t, nr, nc, words)
+            with_data = rng.random() < 0.85
+            p = work / "foreign.hdr"
+            for f in work.glob("foreign.*"):
+                f.unlink()
+            # newline="" so that CRLF reaches the file as generated
+            with open(p, "w", newline="") as fh:
+                fh.write(text)
+            if with_data:
+                p.with_suffix(".bil").write_bytes(data)
+            how = rng.choice(["from_header", "from_stream"]) if eol == "\r\n" else rng.choice(["from_header", "from_stream", "from_zip", "from_stringio"])
+            case = {"op": "foreign", "kind": kind, "dtype": tname, "shape": [nr, nc], "header": text, "how": how, "byteorder": bo}
+            try:
+                g2, defname = read_back(p, how)
+            except Exception as e:  # noqa
+                ask(load_request("foreign", text, data if with_data else None), "load_err", exc_class(e), case)
+                ctx.count(("foreign", rep), False, "foreign/error/" + exc_class(e))
+                continue
+            ask(load_request(defname, text, data if with_data else None), "load", (bo, obs_real(g2)), case)
+            if with_data and np.dtype(g2.dtype) == t:
+                check_bits(ctx, f"load/byteorder_{bo}/data" if bo == "M" else "load/foreign/data",
+                           "a raster is not decoded to the values its file holds", arr, g2.data, case)
+            ctx.count(("foreign", tname, kind, bo, nr, nc, text), True, f"foreign/{kind}/{bo}")
+        except Exception as e:  # noqa  (nothing unexpected may escape: it becomes a correspondence disagreement)
+            escaped(e)
 
     def malformed():
         t = np.dtype(rng.choice(DTYPES))
@@ -678,80 +744,110 @@ def body(ctx):
         return kind, t, text, nbytes
 
     for rep in range(ctx.scale(800, 6000)):
-        kind, t, text, nbytes = malformed()
-        data = bytes(rng.getrandbits(8) for _ in range(nbytes)) if nbytes is not None else None
-        case = {"op": "malformed", "kind": kind, "header": text, "nbytes": nbytes}
-        fh = io.StringIO(text)
         try:
-            if data is None:
-                g2 = Grid.from_stream(fh)
-            else:
-                p = work / "mal.bil"
-                p.write_bytes(data)
-                with open(p, "rb") as fd:
-                    g2 = Grid.from_stream(fh, fd)
-        except Exception as e:  # noqa
-            ask(load_request("no_name", text, data), "load_err", exc_class(e), case)
-            ctx.count(("malformed", kind, text), True, f"malformed/{kind}/" + exc_class(e))
-            continue
-        ask(load_request("no_name", text, data), "load", (None, obs_real(g2)), case)
-        ctx.count(("malformed", kind, text), True, f"malformed/{kind}/ok")
+            kind, t, text, nbytes = malformed()
+            data = bytes(rng.getrandbits(8) for _ in range(nbytes)) if nbytes is not None else None
+            case = {"op": "malformed", "kind": kind, "header": text, "nbytes": nbytes}
+            fh = io.StringIO(text)
+            try:
+                if data is None:
+                    g2 = Grid.from_stream(fh)
+                else:
+                    p = work / "mal.bil"
+                    p.write_bytes(data)
+                    with open(p, "rb") as fd:
+                        g2 = Grid.from_stream(fh, fd)
+            except Exception as e:  # noqa
+                ask(load_request("no_name", text, data), "load_err", exc_class(e), case)
+                ctx.count(("malformed", kind, text), True, f"malformed/{kind}/" + exc_class(e))
+                continue
+            ask(load_request("no_name", text, data), "load", (None, obs_real(g2)), case)
+            ctx.count(("malformed", kind, text), True, f"malformed/{kind}/ok")
+        except Exception as e:  # noqa  (nothing unexpected may escape: it becomes a correspondence disagreement)
+            escaped(e)
 
     # ======================================================================= (4) dictionaries, dtype strings, pixel types
     for rep in range(ctx.scale(50, 400)):
-        for tname in DTYPES:
-            t = np.dtype(tname)
-            shape = gen_shape(ctx, rng)
-            g, vals, nodw = make_grid(Grid, rng, tname, shape)
-            g.data = vals
-            if rng.random() < 0.2:
-                pg = Grid("p", 7, 9, cellsize=gen_float(rng), xllcorner=gen_float(rng), yllcorner=gen_float(rng))
-                g.set_parent_attributes(pg, np.int64(1), np.int64(3), np.int64(0), np.int64(2))
-            case = {"op": "dict", "dtype": tname, "shape": list(shape), "nodata_word": nodw}
-            d = g.to_dict()
-            pk = {k: v for k, v in d.items() if k.startswith("parentgrid_")}
-            ndcanon = d["nodata"] if t.kind != "f" else "x" + "%0*x" % (2 * t.itemsize, word_of(t.type(d["nodata"]), t))
-            if t.kind == "f" and is_nan_word(word_of(t.type(d["nodata"]), t), t):
-                ndcanon = "xnan"
-            impl = " ".join([enc(d["name"]), str(int(d["ncols"])), str(int(d["nrows"])), rawhex(d["cellsize"]), rawhex(d["xllcorner"]),
-                             rawhex(d["yllcorner"]), enc(d["dtype"]), enc(ndcanon), enc(d["comment"])])
-            ask("todict " + grid_toks(g), "todict", (impl, sorted((k, pval_tok(v)) for k, v in pk.items())), {**case, "dict": {k: str(v) for k, v in d.items()}})
-            try:
-                g2 = Grid.from_dict(d)
-            except Exception as e:  # noqa
-                ctx.finding(f"dict/cannot_rebuild/{tname}", "Grid.from_dict(grid.to_dict()) raises", {**case, "error": f"{exc_class(e)}: {e}"[:200], "dict": {k: str(v) for k, v in d.items()}})
-                continue
-            dreq = " ".join(["fromdict", enc(d["name"]), str(int(d["ncols"])), str(int(d["nrows"])), rawhex(d["cellsize"]),
-                             rawhex(d["xllcorner"]), rawhex(d["yllcorner"]), enc(d["dtype"]), enc(d["nodata"]), enc(d["comment"]),
-                             parent_toks(pk)])
-            ask(dreq, "grid", obs_real(g2), {**case, "dict": {k: str(v) for k, v in d.items()}})
-            check_meta(ctx, "dict", g, g2, {**case, "dict": {k: str(v) for k, v in d.items()}})
-            # clone
-            g3 = g.clone()
-            ask("clone " + grid_toks(g), "grid", obs_real(g3), {**case, "op": "clone"})
-            check_meta(ctx, "clone", g, g3, case)
-            check_bits(ctx, "clone/data", "cell values of a clone are not bit-identical", g.data, g3.data, case)
-            if np.shares_memory(g.data, g3.data):
-                ctx.finding("clone/shares_memory", "a clone shares its data array with the original", case)
-            g4 = g.clone(t.type)
-            ask(f"cloneas {t.kind} {t.itemsize} " + grid_toks(g), "grid", obs_real(g4), {**case, "op": "clone(own dtype)"})
-            check_meta(ctx, "clone/same", g, g4, case)
-            check_bits(ctx, "clone/data/same", "cell values of clone(own dtype) are not bit-identical", g.data, g4.data, case)
-            if np.shares_memory(g.data, g4.data):
-                ctx.finding("clone/shares_memory/same", "clone(own dtype) shares its data array with the original", case)
-            if t.kind in "iu":
-                d2 = np.dtype(rng.choice([x for x in DTYPES if x != tname]))
-                g5 = g.clone(d2.type)
-                ask(f"cloneas {d2.kind} {d2.itemsize} " + grid_toks(g), "grid_nonodata", obs_real(g5), {**case, "op": "clone(other dtype)", "to": str(d2)})
-                if np.shares_memory(g.data, g5.data):
-                    ctx.finding("clone/shares_memory/other", "clone(other dtype) shares its data array with the original", case)
-            g3.name = g3.name + "_changed"
-            g3.nodata = 1
-            g3.comment = "changed"
-            g3.xllcorner = np.float64(12345.0)
-            if g.name.endswith("_changed") and not case.get("name", "").endswith("_changed"):
-                ctx.finding("clone/meta_shared", "changing the clone's attributes changed the original", case)
-            ctx.count(("dict", tname, shape, nodw, rawhex(g.xllcorner)), True, f"dict+clone/{tname}")
+        try:
+            for tname in DTYPES:
+                t = np.dtype(tname)
+                shape = gen_shape(ctx, rng)
+                g, vals, nodw = make_grid(Grid, rng, tname, shape)
+                g.data = vals
+                if rng.random() < 0.2:
+                    pg = Grid("p", 7, 9, cellsize=gen_float(rng), xllcorner=gen_float(rng), yllcorner=gen_float(rng))
+                    g.set_parent_attributes(pg, np.int64(1), np.int64(3), np.int64(0), np.int64(2))
+                case = {"op": "dict", "dtype": tname, "shape": list(shape), "nodata_word": nodw}
+                d = g.to_dict()
+                dshow = {k: repr(v) for k, v in d.items()}
+                # the dictionary's observable content, independent of how values are represented (numpy or python scalars,
+                # numbers or numeric text, any spelling np.dtype understands, key order)
+                try:
+                    pk = {k: v for k, v in d.items() if k.startswith("parentgrid_")}
+                    dt = np.dtype(d["dtype"])
+                    ndraw = d["nodata"]
+                    if isinstance(ndraw, (bytes, bytearray)):
+                        ndraw = ndraw.decode()
+                    if dt.kind == "f":
+                        ndw = word_of(dt.type(float(ndraw)), dt)
+                        ndtext = ndraw if isinstance(ndraw, str) else repr(float(ndraw))
+                    else:
+                        try:
+                            ndint = int(ndraw)
+                        except ValueError:
+                            ndint = int(float(ndraw))
+                        ndw = word_of(dt.type(ndint), dt)
+                        ndtext = str(ndint)
+                    ndcanon = "nan" if is_nan_word(ndw, dt) else str(ndw)
+                    impl = {"name": str(d["name"]), "ncols": int(d["ncols"]), "nrows": int(d["nrows"]), "csz": rawhex(d["cellsize"]),
+                            "xll": rawhex(d["xllcorner"]), "yll": rawhex(d["yllcorner"]), "dtype": dt.kind + str(dt.itemsize),
+                            "nodata": ndcanon, "comment": str(d["comment"]),
+                            "parent": sorted((k, pval_value(v)) for k, v in pk.items())}
+                    dreq = " ".join(["fromdict", enc(str(d["name"])), str(int(d["ncols"])), str(int(d["nrows"])), rawhex(d["cellsize"]),
+                                     rawhex(d["xllcorner"]), rawhex(d["yllcorner"]), enc(dt.str), enc(ndtext), enc(str(d["comment"])),
+                                     parent_toks(pk)])
+                except Exception as e:  # noqa
+                    ctx.disagree("C13/dict: the dictionary returned by to_dict cannot be interpreted",
+                                 {**case, "dict": dshow, "error": f"{exc_class(e)}: {e}"[:200]})
+                    impl = dreq = None
+                if impl is not None:
+                    ask("todict " + grid_toks(g), "todict", impl, {**case, "dict": dshow})
+                try:
+                    g2 = Grid.from_dict(d)
+                except Exception as e:  # noqa
+                    ctx.finding(f"dict/cannot_rebuild/{tname}", "Grid.from_dict(grid.to_dict()) raises", {**case, "error": f"{exc_class(e)}: {e}"[:200], "dict": dshow})
+                    continue
+                if dreq is not None:
+                    ask(dreq, "grid", obs_real(g2), {**case, "dict": dshow})
+                check_meta(ctx, "dict", g, g2, {**case, "dict": dshow})
+                # clone
+                g3 = g.clone()
+                ask("clone " + grid_toks(g), "grid", obs_real(g3), {**case, "op": "clone"})
+                check_meta(ctx, "clone", g, g3, case)
+                check_bits(ctx, "clone/data", "cell values of a clone are not bit-identical", g.data, g3.data, case)
+                if np.shares_memory(g.data, g3.data):
+                    ctx.finding("clone/shares_memory", "a clone shares its data array with the original", case)
+                g4 = g.clone(t.type)
+                ask(f"cloneas {t.kind} {t.itemsize} " + grid_toks(g), "grid", obs_real(g4), {**case, "op": "clone(own dtype)"})
+                check_meta(ctx, "clone/same", g, g4, case)
+                check_bits(ctx, "clone/data/same", "cell values of clone(own dtype) are not bit-identical", g.data, g4.data, case)
+                if np.shares_memory(g.data, g4.data):
+                    ctx.finding("clone/shares_memory/same", "clone(own dtype) shares its data array with the original", case)
+                if t.kind in "iu":
+                    d2 = np.dtype(rng.choice([x for x in DTYPES if x != tname]))
+                    g5 = g.clone(d2.type)
+                    ask(f"cloneas {d2.kind} {d2.itemsize} " + grid_toks(g), "grid_nonodata", obs_real(g5), {**case, "op": "clone(other dtype)", "to": str(d2)})
+                    if np.shares_memory(g.data, g5.data):
+                        ctx.finding("clone/shares_memory/other", "clone(other dtype) shares its data array with the original", case)
+                g3.name = g3.name + "_changed"
+                g3.nodata = 1
+                g3.comment = "changed"
+                g3.xllcorner = np.float64(12345.0)
+                if g.name.endswith("_changed") and not case.get("name", "").endswith("_changed"):
+                    ctx.finding("clone/meta_shared", "changing the clone's attributes changed the original", case)
+                ctx.count(("dict", tname, shape, nodw, rawhex(g.xllcorner)), True, f"dict+clone/{tname}")
+        except Exception as e:  # noqa  (nothing unexpected may escape: it becomes a correspondence disagreement)
+            escaped(e)
 
     dstrs = ["<i8", ">i8", "|i1", "<i1", "=i4", "i2", "<u8", ">u2", "|u1", "<f2", ">f4", "<f8", "f8", "<f1", "<i3", "<u16", "<", "",
              "<x8", "i08", "<i8 ", "<I8", ">f2", "=u4", "|i2", "<f3", "<i0", "<u0", "u1", "<i-1", "<8"]
@@ -810,285 +906,319 @@ def body(ctx):
         return [w if not is_nan_word(w, t) else 0 for w in ws]
 
     for rep in range(ctx.scale(400, 4000)):
-        tname = rng.choice(DTYPES)
-        t = np.dtype(tname)
-        nr, nc = gen_shape(ctx, rng)
-        if nr * nc > 64:
-            nr, nc = 4, 4
-        mode = rng.choice(["none", "same", "same", "other"])
-        a, vals, _ = make_grid(Grid, rng, tname, (nr, nc), name="a", comment="")
-        dst = other_dtype(tname) if mode == "other" else t
-        if mode == "other" and t.kind == "f":
-            vals = np.array(no_nan_words(t, [int(v) for v in uview(vals).ravel()]), dtype="u%d" % t.itemsize).view(t).reshape(nr, nc)
-        a.data = vals
-        case = {"op": "store", "mode": mode, "dtype": tname, "clone_dtype": str(dst), "shape": [nr, nc], "ops": []}
         try:
-            b = a.clone() if mode == "none" else a.clone(dst.type)
-        except Exception as e:  # noqa
-            ctx.finding(f"clone/raises/{mode}", "Grid.clone raises", {**case, "error": f"{exc_class(e)}: {e}"[:200]})
-            continue
-        # the clone right after cloning
-        with np.errstate(all="ignore"):
-            expected_b = vals if mode != "other" else vals.astype(dst)
-        if mode != "other":
-            check_meta(ctx, f"clone/{mode}", a, b, case)
-        elif np.dtype(b.dtype) != dst or tuple(b.shape) != tuple(a.shape) or rawhex(b.xllcorner) != rawhex(a.xllcorner):
-            ctx.finding("clone/other/meta", "clone(dtype) has the wrong dtype, shape or corner", case)
-        if b.data.dtype == dst:
-            check_bits(ctx, f"clone/data/{mode}", "cell values of a clone are not the (converted) values of the original", expected_b, b.data, case)
-        if np.shares_memory(a.data, b.data):
-            ctx.finding(f"clone/shares_memory/{mode}", "a clone shares its data array with the original", case)
-        obj = {"A": a, "B": b}
-        dts = {"A": t, "B": np.dtype(b.data.dtype)}
-        exp = {"A": a.data.copy(), "B": b.data.copy()}
-        ops = case["ops"]
-        broken = False
-        for _ in range(rng.randint(1, 8)):
-            who = rng.choice("AB")
-            other = "B" if who == "A" else "A"
-            tw = dts[who]
-            k = rng.random()
-            w = gen_words(rng, tw, 1)[0]
-            sc = np.array([w], dtype="u%d" % tw.itemsize).view(tw)[0]
-            if k < 0.3:
-                idx = rng.randrange(nr * nc)
-                obj[who][idx] = sc                      # Grid.__setitem__
-                ops.append(f"{who}:i:{idx}:{w}")
-            elif k < 0.5:
-                i, j = rng.randrange(nr), rng.randrange(nc)
-                obj[who].data[i, j] = sc                # write through the array the getter returns
-                ops.append(f"{who}:i:{i * nc + j}:{w}")
-            elif k < 0.7:
-                obj[who].fill(sc)
-                ops.append(f"{who}:f:{w}")
+            tname = rng.choice(DTYPES)
+            t = np.dtype(tname)
+            nr, nc = gen_shape(ctx, rng)
+            if nr * nc > 64:
+                nr, nc = 4, 4
+            mode = rng.choice(["none", "same", "same", "other"])
+            a, vals, _ = make_grid(Grid, rng, tname, (nr, nc), name="a", comment="")
+            dst = other_dtype(tname) if mode == "other" else t
+            if mode == "other" and t.kind == "f":
+                vals = np.array(no_nan_words(t, [int(v) for v in uview(vals).ravel()]), dtype="u%d" % t.itemsize).view(t).reshape(nr, nc)
+            a.data = vals
+            case = {"op": "store", "mode": mode, "dtype": tname, "clone_dtype": str(dst), "shape": [nr, nc], "ops": []}
+            try:
+                b = a.clone() if mode == "none" else a.clone(dst.type)
+            except Exception as e:  # noqa
+                ctx.finding(f"clone/raises/{mode}", "Grid.clone raises", {**case, "error": f"{exc_class(e)}: {e}"[:200]})
+                continue
+            # the clone right after cloning
+            with np.errstate(all="ignore"):
+                expected_b = vals if mode != "other" else vals.astype(dst)
+            if mode != "other":
+                check_meta(ctx, f"clone/{mode}", a, b, case)
+            elif np.dtype(b.dtype) != dst or tuple(b.shape) != tuple(a.shape) or rawhex(b.xllcorner) != rawhex(a.xllcorner):
+                ctx.finding("clone/other/meta", "clone(dtype) has the wrong dtype, shape or corner", case)
+            if b.data.dtype == dst:
+                check_bits(ctx, f"clone/data/{mode}", "cell values of a clone are not the (converted) values of the original", expected_b, b.data, case)
+            if np.shares_memory(a.data, b.data):
+                ctx.finding(f"clone/shares_memory/{mode}", "a clone shares its data array with the original", case)
+            obj = {"A": a, "B": b}
+            dts = {"A": t, "B": np.dtype(b.data.dtype)}
+            exp = {"A": a.data.copy(), "B": b.data.copy()}
+            ops = case["ops"]
+            broken = False
+            for _ in range(rng.randint(1, 8)):
+                who = rng.choice("AB")
+                other = "B" if who == "A" else "A"
+                tw = dts[who]
+                k = rng.random()
+                w = gen_words(rng, tw, 1)[0]
+                sc = np.array([w], dtype="u%d" % tw.itemsize).view(tw)[0]
+                if k < 0.3:
+                    idx = rng.randrange(nr * nc)
+                    obj[who][idx] = sc                      # Grid.__setitem__
+                    ops.append(f"{who}:i:{idx}:{w}")
+                elif k < 0.5:
+                    i, j = rng.randrange(nr), rng.randrange(nc)
+                    obj[who].data[i, j] = sc                # write through the array the getter returns
+                    ops.append(f"{who}:i:{i * nc + j}:{w}")
+                elif k < 0.7:
+                    obj[who].fill(sc)
+                    ops.append(f"{who}:f:{w}")
+                else:
+                    nv = np.array(gen_words(rng, tw, nr * nc), dtype="u%d" % tw.itemsize).view(tw).reshape(nr, nc)
+                    obj[who].data = nv
+                    ops.append(f"{who}:d:{fmt_mat(nv)}")
+                if not broken and obj[other].data.tobytes() != exp[other].tobytes():
+                    broken = True
+                    ctx.finding(f"clone/not_independent/{mode}",
+                                "a write through the " + ("clone changed the original" if who == "B" else "original changed the clone"),
+                                {**case, "ops": list(ops)})
+                if not broken and np.shares_memory(a.data, b.data):
+                    broken = True
+                    ctx.finding(f"clone/shares_memory/{mode}", "clone and original share their data array", {**case, "ops": list(ops)})
+                exp[who] = obj[who].data.copy()
+            if mode == "none":
+                req = f"store {fmt_mat(vals)} " + " ".join(ops)
             else:
-                nv = np.array(gen_words(rng, tw, nr * nc), dtype="u%d" % tw.itemsize).view(tw).reshape(nr, nc)
-                obj[who].data = nv
-                ops.append(f"{who}:d:{fmt_mat(nv)}")
-            if not broken and obj[other].data.tobytes() != exp[other].tobytes():
-                broken = True
-                ctx.finding(f"clone/not_independent/{mode}",
-                            "a write through the " + ("clone changed the original" if who == "B" else "original changed the clone"),
-                            {**case, "ops": list(ops)})
-            if not broken and np.shares_memory(a.data, b.data):
-                broken = True
-                ctx.finding(f"clone/shares_memory/{mode}", "clone and original share their data array", {**case, "ops": list(ops)})
-            exp[who] = obj[who].data.copy()
-        if mode == "none":
-            req = f"store {fmt_mat(vals)} " + " ".join(ops)
-        else:
-            req = f"storeas {t.kind} {t.itemsize} {dst.kind} {dst.itemsize} {fmt_mat(vals)} " + " ".join(ops)
-        ask(req, "plain", fmt_mat(a.data) + " " + fmt_mat(b.data), {**case, "ops": list(ops)})
-        ctx.count(("store", mode, tname, str(dst), tuple(ops)), True, f"clone/store/{mode}")
+                req = f"storeas {t.kind} {t.itemsize} {dst.kind} {dst.itemsize} {fmt_mat(vals)} " + " ".join(ops)
+            ask(req, "plain", fmt_mat(a.data) + " " + fmt_mat(b.data), {**case, "ops": list(ops)})
+            ctx.count(("store", mode, tname, str(dst), tuple(ops)), True, f"clone/store/{mode}")
+        except Exception as e:  # noqa  (nothing unexpected may escape: it becomes a correspondence disagreement)
+            escaped(e)
 
     # ======================================================================= (6) clip
     F = Fraction
     DEC_CSZ = ["0.1", "0.05", "0.025", "0.0025", "0.2", "0.3", "0.7", "0.001", "0.01", "0.5", "2", "0.25", "1", "1000", "0.0125"]
     DEC_ORG = ["0", "112", "-43.75", "112.9", "0.1", "-2951000", "1.5", "-0.3", "145.44625", "10", "-7"]
     for rep in range(ctx.scale(500, 5000)):
-        tname = rng.choice(DTYPES)
-        t = np.dtype(tname)
-        nr, nc = (rng.randint(1, 12), rng.randint(1, 12)) if not (ctx.thorough and rng.random() < 0.05) else (40, 33)
-        c0, c1 = sorted([rng.randrange(nc), rng.randrange(nc)])
-        rt, rb = sorted([rng.randrange(nr), rng.randrange(nr)])   # top row, bottom row (row numbers grow downwards)
-        lattice = rng.random() < 0.5
-        if lattice:
-            # decimal geometry (cell sizes such as 0.1 or 0.05 are not binary fractions) and corners placed ON the lattice of
-            # the parent: on a cell edge, on a cell centre, on a quarter, and one ulp either side of those
-            dcsz, dxll, dyll = F(rng.choice(DEC_CSZ)), F(rng.choice(DEC_ORG)), F(rng.choice(DEC_ORG))
-            csz, xll, yll = float(dcsz), float(dxll), float(dyll)
-            fr = [rng.choice([F(0), F(0), F(1, 2), F(1, 4), F(3, 4)]) for _ in range(4)]
-            if c0 == c1:
-                fr[0], fr[1] = sorted(fr[:2])
-            if rt == rb:
-                fr[2], fr[3] = sorted(fr[2:])
-            pts = [float(dxll + dcsz * (c0 + fr[0])), float(dyll + dcsz * ((nr - 1 - rb) + fr[2])),
-                   float(dxll + dcsz * (c1 + fr[1])), float(dyll + dcsz * ((nr - 1 - rt) + fr[3]))]
-            pts = [float(np.nextafter(p, rng.choice([-np.inf, np.inf]))) if rng.random() < 0.2 else p for p in pts]
-            x0, y0, x1, y1 = pts
-        else:
-            csz = rng.choice([1.0, 0.25, 0.1, 0.0025, 1000.0, rng.uniform(0.01, 10), 10 ** rng.uniform(-3, 3)])
-            scale = csz * rng.choice([0, 1, 10, 1000])
-            xll = rng.choice([0.0, -3.5 * csz, rng.uniform(-1, 1) * scale, 112.90125, -2951000.0])
-            yll = rng.choice([0.0, 7 * csz, rng.uniform(-1, 1) * scale, -43.74375])
-            fr = [rng.choice([0.5, 0.25, 0.75, 0.01, 0.99, 0.0, rng.random()]) for _ in range(4)]
-            if c0 == c1:
-                fr[0], fr[1] = sorted(fr[:2])
-            if rt == rb:
-                fr[2], fr[3] = sorted(fr[2:])
-            x0 = float(np.float64(xll) + np.float64(csz) * (c0 + fr[0]))
-            x1 = float(np.float64(xll) + np.float64(csz) * (c1 + fr[1]))
-            y0 = float(np.float64(yll) + np.float64(csz) * ((nr - 1 - rb) + fr[2]))
-            y1 = float(np.float64(yll) + np.float64(csz) * ((nr - 1 - rt) + fr[3]))
-        g, vals, nodw = make_grid(Grid, rng, tname, (nr, nc), georef=(xll, yll, csz))
-        g.data = vals
-        # keep to the property's region: both corners inside the extent, lower-left below / left of upper-right,
-        # decided in exact arithmetic on the float64 inputs
-        fx = lambda x: (F(x) - F(xll)) / F(csz)  # noqa
-        fy = lambda y: (F(y) - F(yll)) / F(csz)  # noqa
-        inside = all(0 <= fx(x) < nc for x in (x0, x1)) and all(0 <= fy(y) < nr for y in (y0, y1))
-        if not inside or x1 < x0 or y1 < y0:
-            ctx.count(("clip", rep), False, "clip/skipped_outside")
-            continue
-        mag = max(abs(xll), abs(yll), abs(x1), abs(y1), csz * max(nr, nc))
-        tolc = F(64 * float(np.spacing(mag))) / F(csz)          # 64 ulp of the coordinates, in cells
-        # `safe`: every corner is clear of every cell edge, so rounding cannot move it into a neighbouring cell and the
-        # exact window is claimed. `safe_ext`: every corner is clear of the OUTER boundary of the extent (or exactly on
-        # its lower/left side), so the float code must see it inside whichever cell it rounds into.
-        edge = min(min(abs(fx(x) - round(fx(x))) for x in (x0, x1)), min(abs(fy(y) - round(fy(y))) for y in (y0, y1)))
-        safe = edge > tolc
-        safe_ext = all((q == 0 or q > tolc) and (n - q) > tolc for q, n in
-                       [(fx(x0), nc), (fx(x1), nc), (fy(y0), nr), (fy(y1), nr)])
-        onedge = "on_lattice" if edge == 0 else ("near_edge" if not safe else "interior")
-        case = {"op": "clip", "dtype": tname, "shape": [nr, nc], "xll": repr(xll), "yll": repr(yll), "csz": repr(csz),
-                "box": [repr(x0), repr(y0), repr(x1), repr(y1)], "corners": onedge}
         try:
-            cl = g.clip(x0, y0, x1, y1)
-        except Exception as e:  # noqa
-            if safe_ext:
-                ctx.finding("clip/raises", "Grid.clip raises for a box inside the extent", {**case, "error": f"{exc_class(e)}: {e}"[:200]})
-            ctx.count(("clip", rep), False, "clip/error")
-            continue
-        ask(f"clip {rawhex(x0)} {rawhex(y0)} {rawhex(x1)} {rawhex(y1)} " + grid_toks(g), "grid_nocomment", obs_real(cl), case)
-        cls = data_class(t, vals)
-        if np.dtype(cl.dtype) != t or not same_value(cl.nodata, g.nodata) or type(cl.nodata) is not type(g.nodata):
-            ctx.finding("clip/dtype_nodata", "clip changed the data type or the no-data value", case)
-        if rawhex(cl.cellsize) != rawhex(g.cellsize):
-            ctx.finding("clip/cellsize", "clip changed the cell size", case)
-        # ---- oracle 1 (the property as stated, whichever cells the corners round into): the clipped grid, read through
-        # ITS OWN georeferencing, holds at each of its cell centres the value the parent holds at that coordinate
-        if safe_ext:
-            ncl = int(cl.nrows) * int(cl.ncols)
-            if ncl < 1 or cl.data.shape != (int(cl.nrows), int(cl.ncols)):
-                ctx.finding("clip/empty", "clip of a box inside the extent is empty or inconsistent", {**case, "clip_shape": list(cl.data.shape)})
+            tname = rng.choice(DTYPES)
+            t = np.dtype(tname)
+            nr, nc = (rng.randint(1, 12), rng.randint(1, 12)) if not (ctx.thorough and rng.random() < 0.05) else (40, 33)
+            c0, c1 = sorted([rng.randrange(nc), rng.randrange(nc)])
+            rt, rb = sorted([rng.randrange(nr), rng.randrange(nr)])   # top row, bottom row (row numbers grow downwards)
+            lattice = rng.random() < 0.5
+            if lattice:
+                # decimal geometry (cell sizes such as 0.1 or 0.05 are not binary fractions) and corners placed ON the lattice of
+                # the parent: on a cell edge, on a cell centre, on a quarter, and one ulp either side of those
+                dcsz, dxll, dyll = F(rng.choice(DEC_CSZ)), F(rng.choice(DEC_ORG)), F(rng.choice(DEC_ORG))
+                csz, xll, yll = float(dcsz), float(dxll), float(dyll)
+                fr = [rng.choice([F(0), F(0), F(1, 2), F(1, 4), F(3, 4)]) for _ in range(4)]
+                if c0 == c1:
+                    fr[0], fr[1] = sorted(fr[:2])
+                if rt == rb:
+                    fr[2], fr[3] = sorted(fr[2:])
+                pts = [float(dxll + dcsz * (c0 + fr[0])), float(dyll + dcsz * ((nr - 1 - rb) + fr[2])),
+                       float(dxll + dcsz * (c1 + fr[1])), float(dyll + dcsz * ((nr - 1 - rt) + fr[3]))]
+                pts = [float(np.nextafter(p, rng.choice([-np.inf, np.inf]))) if rng.random() < 0.2 else p for p in pts]
+                x0, y0, x1, y1 = pts
             else:
-                cxy = cl.cell2coord(np.arange(ncl))
-                back = g.coord2cell(cxy)
-                if (back < 0).any():
-                    ctx.finding("clip/centres", "a cell centre of the clipped grid lies outside the parent", case)
+                csz = rng.choice([1.0, 0.25, 0.1, 0.0025, 1000.0, rng.uniform(0.01, 10), 10 ** rng.uniform(-3, 3)])
+                scale = csz * rng.choice([0, 1, 10, 1000])
+                xll = rng.choice([0.0, -3.5 * csz, rng.uniform(-1, 1) * scale, 112.90125, -2951000.0])
+                yll = rng.choice([0.0, 7 * csz, rng.uniform(-1, 1) * scale, -43.74375])
+                fr = [rng.choice([0.5, 0.25, 0.75, 0.01, 0.99, 0.0, rng.random()]) for _ in range(4)]
+                if c0 == c1:
+                    fr[0], fr[1] = sorted(fr[:2])
+                if rt == rb:
+                    fr[2], fr[3] = sorted(fr[2:])
+                x0 = float(np.float64(xll) + np.float64(csz) * (c0 + fr[0]))
+                x1 = float(np.float64(xll) + np.float64(csz) * (c1 + fr[1]))
+                y0 = float(np.float64(yll) + np.float64(csz) * ((nr - 1 - rb) + fr[2]))
+                y1 = float(np.float64(yll) + np.float64(csz) * ((nr - 1 - rt) + fr[3]))
+            g, vals, nodw = make_grid(Grid, rng, tname, (nr, nc), georef=(xll, yll, csz))
+            g.data = vals
+            # keep to the property's region: both corners inside the extent, lower-left below / left of upper-right,
+            # decided in exact arithmetic on the float64 inputs
+            fx = lambda x: (F(x) - F(xll)) / F(csz)  # noqa
+            fy = lambda y: (F(y) - F(yll)) / F(csz)  # noqa
+            inside = all(0 <= fx(x) < nc for x in (x0, x1)) and all(0 <= fy(y) < nr for y in (y0, y1))
+            if not inside or x1 < x0 or y1 < y0:
+                ctx.count(("clip", rep), False, "clip/skipped_outside")
+                continue
+            mag = max(abs(xll), abs(yll), abs(x1), abs(y1), csz * max(nr, nc))
+            tolc = F(64 * float(np.spacing(mag))) / F(csz)          # 64 ulp of the coordinates, in cells
+            # `safe`: every corner is clear of every cell edge, so rounding cannot move it into a neighbouring cell and the
+            # exact window is claimed. `safe_ext`: every corner is clear of the OUTER boundary of the extent (or exactly on
+            # its lower/left side), so the float code must see it inside whichever cell it rounds into.
+            edge = min(min(abs(fx(x) - round(fx(x))) for x in (x0, x1)), min(abs(fy(y) - round(fy(y))) for y in (y0, y1)))
+            safe = edge > tolc
+            safe_ext = all((q == 0 or q > tolc) and (n - q) > tolc for q, n in
+                           [(fx(x0), nc), (fx(x1), nc), (fy(y0), nr), (fy(y1), nr)])
+            onedge = "on_lattice" if edge == 0 else ("near_edge" if not safe else "interior")
+            case = {"op": "clip", "dtype": tname, "shape": [nr, nc], "xll": repr(xll), "yll": repr(yll), "csz": repr(csz),
+                    "box": [repr(x0), repr(y0), repr(x1), repr(y1)], "corners": onedge}
+            try:
+                cl = g.clip(x0, y0, x1, y1)
+            except Exception as e:  # noqa
+                if safe_ext:
+                    ctx.finding("clip/raises", "Grid.clip raises for a box inside the extent", {**case, "error": f"{exc_class(e)}: {e}"[:200]})
+                ctx.count(("clip", rep), False, "clip/error")
+                continue
+            ask(f"clip {rawhex(x0)} {rawhex(y0)} {rawhex(x1)} {rawhex(y1)} " + grid_toks(g), "grid_nocomment", obs_real(cl), case)
+            cls = data_class(t, vals)
+            if np.dtype(cl.dtype) != t or not same_value(cl.nodata, g.nodata) or type(cl.nodata) is not type(g.nodata):
+                ctx.finding("clip/dtype_nodata", "clip changed the data type or the no-data value", case)
+            if rawhex(cl.cellsize) != rawhex(g.cellsize):
+                ctx.finding("clip/cellsize", "clip changed the cell size", case)
+            # ---- oracle 1 (the property as stated, whichever cells the corners round into): the clipped grid, read through
+            # ITS OWN georeferencing, holds at each of its cell centres the value the parent holds at that coordinate
+            if safe_ext:
+                ncl = int(cl.nrows) * int(cl.ncols)
+                if ncl < 1 or cl.data.shape != (int(cl.nrows), int(cl.ncols)):
+                    ctx.finding("clip/empty", "clip of a box inside the extent is empty or inconsistent", {**case, "clip_shape": list(cl.data.shape)})
                 else:
-                    pvals = uview(g.data).ravel()[back]
-                    cvals = uview(cl.data).ravel()
-                    if not np.array_equal(pvals, cvals):
-                        k = int(np.argwhere(pvals != cvals)[0][0])
-                        ctx.finding(f"clip/values_at_centres/{cls}",
-                                    "a cell of the clipped grid does not hold the value the parent holds at that cell's centre",
-                                    {**case, "clip_cell": k, "centre": [float(v) for v in cxy[k]], "parent_cell": int(back[k]),
-                                     "clip_word": int(cvals[k]), "parent_word": int(pvals[k]), "n_differ": int((pvals != cvals).sum())})
-                    pxy = g.cell2coord(back)
-                    tol = 4 * np.spacing(mag)
-                    if not np.all(np.abs(cxy - pxy) <= tol):
-                        ctx.finding("clip/centres", "cell centres of the clipped grid do not coincide with the parent's",
-                                    {**case, "max_diff": float(np.abs(cxy - pxy).max()), "tol": float(tol)})
-        # ---- oracle 2 (exact window, claimed only when no corner is within rounding distance of a cell edge)
-        ec0, ec1 = int(fx(x0) // 1), int(fx(x1) // 1)
-        erb, ert = nr - 1 - int(fy(y0) // 1), nr - 1 - int(fy(y1) // 1)
-        if safe:
-            exp = vals[ert:erb + 1, ec0:ec1 + 1]
-            check_bits(ctx, f"clip/values/{cls}", "the clipped grid does not hold the parent's values of the boxed cells", exp, cl.data, case)
-        elif safe_ext and cl.data.size:
-            # a corner on / next to an edge may fall in either adjacent cell: the window may differ by one row / column
-            if abs(cl.data.shape[0] - (erb - ert + 1)) > 2 or abs(cl.data.shape[1] - (ec1 - ec0 + 1)) > 2:
-                ctx.finding("clip/window", "the clipped window is more than one cell away from the boxed cells", {**case, "clip_shape": list(cl.data.shape)})
-        ctx.count(("clip", tname, nr, nc, c0, c1, rb, rt, tuple(str(f) for f in fr), lattice, x0, y0), safe_ext,
-                  f"clip/{'lattice' if lattice else 'free'}/{onedge}/" + ("multi" if (ec1 > ec0 and erb > ert) else "thin"),
-                  sample=case)
+                    cxy = cl.cell2coord(np.arange(ncl))
+                    back = g.coord2cell(cxy)
+                    if (back < 0).any():
+                        ctx.finding("clip/centres", "a cell centre of the clipped grid lies outside the parent", case)
+                    else:
+                        pvals = uview(g.data).ravel()[back]
+                        cvals = uview(cl.data).ravel()
+                        if not np.array_equal(pvals, cvals):
+                            k = int(np.argwhere(pvals != cvals)[0][0])
+                            ctx.finding(f"clip/values_at_centres/{cls}",
+                                        "a cell of the clipped grid does not hold the value the parent holds at that cell's centre",
+                                        {**case, "clip_cell": k, "centre": [float(v) for v in cxy[k]], "parent_cell": int(back[k]),
+                                         "clip_word": int(cvals[k]), "parent_word": int(pvals[k]), "n_differ": int((pvals != cvals).sum())})
+                        pxy = g.cell2coord(back)
+                        tol = 4 * np.spacing(mag)
+                        if not np.all(np.abs(cxy - pxy) <= tol):
+                            ctx.finding("clip/centres", "cell centres of the clipped grid do not coincide with the parent's",
+                                        {**case, "max_diff": float(np.abs(cxy - pxy).max()), "tol": float(tol)})
+            # ---- oracle 2 (exact window, claimed only when no corner is within rounding distance of a cell edge)
+            ec0, ec1 = int(fx(x0) // 1), int(fx(x1) // 1)
+            erb, ert = nr - 1 - int(fy(y0) // 1), nr - 1 - int(fy(y1) // 1)
+            if safe:
+                exp = vals[ert:erb + 1, ec0:ec1 + 1]
+                check_bits(ctx, f"clip/values/{cls}", "the clipped grid does not hold the parent's values of the boxed cells", exp, cl.data, case)
+            elif safe_ext and cl.data.size:
+                # a corner on / next to an edge may fall in either adjacent cell: the window may differ by one row / column
+                if abs(cl.data.shape[0] - (erb - ert + 1)) > 2 or abs(cl.data.shape[1] - (ec1 - ec0 + 1)) > 2:
+                    ctx.finding("clip/window", "the clipped window is more than one cell away from the boxed cells", {**case, "clip_shape": list(cl.data.shape)})
+            ctx.count(("clip", tname, nr, nc, c0, c1, rb, rt, tuple(str(f) for f in fr), lattice, x0, y0), safe_ext,
+                      f"clip/{'lattice' if lattice else 'free'}/{onedge}/" + ("multi" if (ec1 > ec0 and erb > ert) else "thin"),
+                      sample=case)
+        except Exception as e:  # noqa  (nothing unexpected may escape: it becomes a correspondence disagreement)
+            escaped(e)
 
     # ======================================================================= (7) catchments
     codes = [int(c) for c in FLOWDIRCODE.ravel() if c != 0]
     ndone = 0
     for rep in range(ctx.scale(100, 800) * 3):
-        if ndone >= ctx.scale(100, 800):
-            break
-        nr, nc = rng.randint(1, 6), rng.randint(1, 6)
-        fddata = np.array([[rng.choice(codes + [0]) for _ in range(nc)] for _ in range(nr)], dtype=np.int64)
-        outlet = rng.randrange(nr * nc)
-        inlets = None
-        if rng.random() < 0.6:
-            # inlets: cells of the inlet-free area (so that they cut something off), sometimes an arbitrary cell
-            probe = Catchment("probe", Grid("p", nc, nr, dtype=np.int64))
-            probe.flowdir.data = fddata
-            try:
-                probe.delineate_area(outlet)
-            except ValueError:
-                ctx.count(("catch", rep), False, "catchment/delineation_error")
-                continue
-            cand = [int(c) for c in probe.idxcells_area if int(c) != outlet]
-            inlets = rng.sample(cand, min(len(cand), rng.randint(0, 2))) if rng.random() < 0.8 else [rng.randrange(nr * nc)]
-        if catchment_case(fddata, outlet, inlets, gen_text(rng) or "c", ndone):
-            ndone += 1
+        try:
+            if ndone >= ctx.scale(100, 800):
+                break
+            nr, nc = rng.randint(1, 6), rng.randint(1, 6)
+            fddata = np.array([[rng.choice(codes + [0]) for _ in range(nc)] for _ in range(nr)], dtype=np.int64)
+            outlet = rng.randrange(nr * nc)
+            inlets = None
+            if rng.random() < 0.6:
+                # inlets: cells of the inlet-free area (so that they cut something off), sometimes an arbitrary cell
+                probe = Catchment("probe", Grid("p", nc, nr, dtype=np.int64))
+                probe.flowdir.data = fddata
+                try:
+                    probe.delineate_area(outlet)
+                except ValueError:
+                    ctx.count(("catch", rep), False, "catchment/delineation_error")
+                    continue
+                cand = [int(c) for c in probe.idxcells_area if int(c) != outlet]
+                inlets = rng.sample(cand, min(len(cand), rng.randint(0, 2))) if rng.random() < 0.8 else [rng.randrange(nr * nc)]
+            if catchment_case(fddata, outlet, inlets, gen_text(rng) or "c", ndone):
+                ndone += 1
+        except Exception as e:  # noqa  (nothing unexpected may escape: it becomes a correspondence disagreement)
+            escaped(e)
 
     # ======================================================================= correspondence
-    replies = ctx.lean.ask(reqs)
-    for req, rep, (kind, impl, case) in zip(reqs, replies, checks):
+    malformed_diffs = []
+
+    def compare_reply(req, rep, kind, impl, case):
+        def differ(what, c):
+            # how text that is NOT a valid header is treated (which error is raised, or a tolerant reading) is not
+            # constrained by the property: differences there are reported in the evidence, not as a broken correspondence
+            if case.get("op") == "malformed":
+                malformed_diffs.append({"what": what, "kind": case.get("kind"), "header": case.get("header")})
+            else:
+                ctx.disagree(what, c)
         toks = rep.split(" ")
         tag = f"C13/{case.get('op', kind)}"
         if rep == "bad-op":
-            ctx.disagree(f"{tag}: request not understood by the driver", {**case, "request": req[:300]})
-            continue
+            differ(f"{tag}: request not understood by the driver", {**case, "request": req[:300]})
+            return
         if kind == "plain":
             if rep != impl:
-                ctx.disagree(f"{tag}: implementation and model differ", {**case, "impl": impl, "model": rep})
+                differ(f"{tag}: implementation and model differ", {**case, "impl": impl, "model": rep})
         elif kind == "save":
             if toks[0] != "ok":
-                ctx.disagree(f"{tag}: model fails where Grid.save succeeds", {**case, "model": rep})
-                continue
-            mlines = dec(toks[1]).split("\n")[:-1]
+                differ(f"{tag}: model fails where Grid.save succeeds", {**case, "model": rep})
+                return
             tt = np.dtype(case["dtype"])
-            if tt.kind == "f":      # a NaN no-data value is printed `nan` whatever its payload
-                mlines = [re.sub(r"x[0-9a-f]+$", "xnan", l) if l.startswith("NODATA_VALUE") and is_nan_word(int(l.split("x")[-1], 16), tt)
-                          else l for l in mlines]
-            mlines = sorted(mlines)
-            if mlines != impl[0]:
-                ctx.disagree(f"{tag}: header lines differ", {**case, "impl": impl[0], "model": mlines})
+            mtext = dec(toks[1])
+            if tt.kind != "f":      # the model prints an integer no-data value in decimal: same canonical word
+                pass
+            mfields = canon_header(mtext, tt)
+            if mfields != impl[0]:
+                keys = sorted(k for k in set(mfields) | set(impl[0]) if mfields.get(k) != impl[0].get(k))
+                differ(f"{tag}: header fields differ: {keys}",
+                             {**case, "impl": {k: impl[0].get(k) for k in keys}, "model": {k: mfields.get(k) for k in keys}})
             if toks[2][1:] != impl[1]:
-                ctx.disagree(f"{tag}: data bytes differ", {**case, "impl": impl[1][:80], "model": toks[2][1:81]})
+                differ(f"{tag}: data bytes differ", {**case, "impl": impl[1][:80], "model": toks[2][1:81]})
         elif kind == "load":
             if toks[0] != "ok":
-                ctx.disagree(f"{tag}: model rejects a header the code loads", {**case, "model": rep})
-                continue
+                differ(f"{tag}: model rejects a header the code loads", {**case, "model": rep})
+                return
             bo, real = impl
             model = obs_model(toks[2:])
+            for o in (real, model):     # name / comment are free text the property does not constrain: case and blanks
+                for k in ("name", "comment"):
+                    o[k] = " ".join(str(o[k]).lower().split())
             d = diff_obs(real, model)
             if d or (bo is not None and toks[1] != bo):
-                ctx.disagree(f"{tag}: loaded grid differs in {d}", {**case, "impl": {k: real[k] for k in d}, "model": {k: model[k] for k in d},
+                differ(f"{tag}: loaded grid differs in {d}", {**case, "impl": {k: real[k] for k in d}, "model": {k: model[k] for k in d},
                                                                  "byteorder": [bo, toks[1]]})
         elif kind == "load_err":
             if toks[0] != "err":
-                ctx.disagree(f"{tag}: the code raises {impl}, the model loads", {**case, "model": rep[:200]})
+                differ(f"{tag}: the code raises {impl}, the model loads", {**case, "model": rep[:200]})
             elif impl not in ERRCLASS.get(toks[1], set()):
-                ctx.disagree(f"{tag}: the code raises {impl}, the model reports {toks[1]}", case)
+                differ(f"{tag}: the code raises {impl}, the model reports {toks[1]}", case)
         elif kind in ("grid", "grid_nocomment", "grid_nonodata"):
             if toks[0] != "ok":
-                ctx.disagree(f"{tag}: model fails ({rep}) where the code succeeds", case)
-                continue
+                differ(f"{tag}: model fails ({rep}) where the code succeeds", case)
+                return
             model = obs_model(toks[1:])
             # the clip comment quotes the box with python's float printing (external, not constrained by the property)
             # clone(other dtype) keeps the no-data scalar of the old dtype (not an observable of the property)
             d = diff_obs(impl, model, skip={"grid_nocomment": ("comment",), "grid_nonodata": ("nodata",)}.get(kind, ()))
             if d:
-                ctx.disagree(f"{tag}: grids differ in {d}", {**case, "impl": {k: impl[k] for k in d}, "model": {k: model[k] for k in d}})
+                differ(f"{tag}: grids differ in {d}", {**case, "impl": {k: impl[k] for k in d}, "model": {k: model[k] for k in d}})
         elif kind == "todict":
             if toks[0] != "ok":
-                ctx.disagree(f"{tag}: model fails", {**case, "model": rep})
-                continue
+                differ(f"{tag}: model fails", {**case, "model": rep})
+                return
             tt = np.dtype(case["dtype"])
-            if tt.kind == "f" and is_nan_word(int(dec(toks[8])[1:], 16), tt):
-                toks[8] = enc("xnan")
-            mflat = " ".join(toks[1:10])
-            mpar = parse_parent(toks[10], toks[11])
-            if mflat != impl[0] or mpar != impl[1]:
-                ctx.disagree(f"{tag}: dictionaries differ", {**case, "impl": [impl[0], impl[1]], "model": [mflat, mpar]})
+            mdt = np.dtype(dec(toks[7]))
+            mnd = dec(toks[8])
+            mw = int(mnd[1:], 16) if mnd.startswith("x") else word_of(mdt.type(int(mnd)), mdt)
+            model = {"name": dec(toks[1]), "ncols": int(toks[2]), "nrows": int(toks[3]), "csz": toks[4], "xll": toks[5], "yll": toks[6],
+                     "dtype": mdt.kind + str(mdt.itemsize), "nodata": "nan" if is_nan_word(mw, mdt) else str(mw),
+                     "comment": dec(toks[9]),
+                     "parent": sorted((k, model_pval_value(v)) for k, v in parse_parent(toks[10], toks[11]))}
+            dd = diff_obs(impl, model)
+            if dd:
+                differ(f"{tag}: dictionaries differ in {dd}", {**case, "impl": {k: impl[k] for k in dd}, "model": {k: model[k] for k in dd}})
         elif kind == "catch":
             if toks[0] != "ok":
-                ctx.disagree(f"{tag}: model fails ({rep})", case)
-                continue
+                differ(f"{tag}: model fails ({rep})", case)
+                return
             mflat = " ".join(toks[1:6])
             model = obs_model(toks[6:])
             d = diff_obs(impl[1], model)
             if mflat != impl[0] or d:
-                ctx.disagree(f"{tag}: rebuilt catchments differ", {**case, "impl": impl[0], "model": mflat, "flowdir_fields": d})
+                differ(f"{tag}: rebuilt catchments differ", {**case, "impl": impl[0], "model": mflat, "flowdir_fields": d})
+
+    replies = ctx.lean.ask(reqs)
+    for req, rep, (kind, impl, case) in zip(reqs, replies, checks):
+        try:
+            compare_reply(req, rep, kind, impl, case)
+        except Exception as e:  # noqa
+            ctx.disagree(f"C13/{case.get('op', kind)}: reply could not be compared ({type(e).__name__}: {e})"[:300],
+                         {**case, "model": rep[:300], "trace": traceback.format_exc()[-600:]})
     shutil.rmtree(work, ignore_errors=True)
+    ctx.extra["malformed_header_differences"] = {"count": len(malformed_diffs), "samples": malformed_diffs[:5]}
     ctx.extra["rule"] = __doc__.split("Cases:")[1].strip()
     ctx.assumptions += [
         "float printing and reading (str(np.float64), float()), conversions between float formats, ndarray.tofile / np.fromfile, "
